@@ -2,6 +2,8 @@ package km
 
 import (
 	"encoding/json"
+	"go/token"
+	"go/types"
 
 	"golang.org/x/tools/go/ssa"
 )
@@ -61,7 +63,21 @@ func forwardOf(g *ssa.Function) *forwardInfo {
 					return nil
 				}
 				ret = x
-			case *ssa.Extract, *ssa.DebugRef, *ssa.Alloc, *ssa.UnOp, *ssa.MakeInterface, *ssa.ChangeType, *ssa.ChangeInterface:
+			case *ssa.Extract, *ssa.DebugRef, *ssa.Alloc, *ssa.UnOp, *ssa.MakeInterface, *ssa.ChangeType, *ssa.ChangeInterface, *ssa.FieldAddr, *ssa.Field:
+			case *ssa.If, *ssa.Jump, *ssa.Convert:
+				// several blocks only for choosing the function value (below); a conversion of a parameter handed on
+			case *ssa.Phi:
+				// a function value with a fallback: hook := x.hook; if hook == nil { hook = pkg.Default }
+				if _, isSig := x.Type().Underlying().(*types.Signature); !isSig {
+					return nil
+				}
+			case *ssa.BinOp:
+				if (x.Op != token.EQL && x.Op != token.NEQ) || !(IsNilConst(x.X) || IsNilConst(x.Y)) {
+					return nil
+				}
+				if _, isSig := x.X.Type().Underlying().(*types.Signature); !isSig {
+					return nil
+				}
 			case *ssa.Store:
 				// the spill of a value receiver / parameter into its own cell
 				if _, isP := x.Val.(*ssa.Parameter); !isP {
@@ -75,7 +91,7 @@ func forwardOf(g *ssa.Function) *forwardInfo {
 			}
 		}
 	}
-	if call == nil || ret == nil || len(g.Blocks) != 1 {
+	if call == nil || ret == nil || !(call.Block() == ret.Block() || call.Block().Dominates(ret.Block())) {
 		return nil
 	}
 	inner := StaticCallee(call.Common())
@@ -103,6 +119,12 @@ func forwardOf(g *ssa.Function) *forwardInfo {
 	fi := &forwardInfo{inner: inner}
 	for _, a := range CallArgs(call.Common()) {
 		av := CellOrigin(Unwrap(a))
+		if cv, isCv := av.(*ssa.Convert); isCv {
+			// string(password): the parameter in another representation
+			if _, isP := CellOrigin(Unwrap(cv.X)).(*ssa.Parameter); isP {
+				av = CellOrigin(Unwrap(cv.X))
+			}
+		}
 		idx := -1
 		for i, p := range g.Params {
 			if ssa.Value(p) == av {
@@ -112,7 +134,14 @@ func forwardOf(g *ssa.Function) *forwardInfo {
 		if idx < 0 {
 			_, isC := av.(*ssa.Const)
 			isF := plainFuncValue(av) != nil
-			if !isC && !isF {
+			isPath := false
+			if root, _, ok := fieldPathRaw(av); ok {
+				// a field of one of the wrapper's parameters (the receiver's configuration handed on)
+				if rp, isP := CellOrigin(Unwrap(root)).(*ssa.Parameter); isP && rp.Parent() == g {
+					isPath = true
+				}
+			}
+			if !isC && !isF && !isPath {
 				if cl, isCall := av.(*ssa.Call); !isCall || len(cl.Common().Args) != 0 || cl.Common().IsInvoke() {
 					return nil // neither a parameter, a constant, a function nor a nullary call (context.Background())
 				}
